@@ -36,8 +36,10 @@ confirmed, in a scratch worktree, that its demonstration passes on the unchanged
 the pinned suite passes with the change. `seeded/<name>/` holds `patch.diff`, `demo.py`, `notes.md` and `meta.json` (what
 it needs to manifest, what was run, which clauses report it). A change is run against the checks with
 `tools/seedrun.sh seeded/<name>/patch.diff <ID>` (applies it to `/repo`, runs the quick tier, always reverts) or, for all
-of them, `tools/seed_all.sh <scratch copy of /repo>`. {len(rows)} changes, two rounds (m1/m2: first round; m3/m4: second
-round, with the first round's mechanisms excluded).
+of them, `tools/seed_all.sh <scratch copy of /repo>`. {len(rows)} changes, three rounds (m1/m2: first round, all twenty
+properties; m3/m4: second round, all twenty, with the first round's mechanisms excluded; m5/m6: third round for C01 C03 C05
+C06 C12 C13 C14 C16 C19 C20, with all earlier mechanisms excluded). The last column comes from one pass of
+`tools/seed_all.sh` over all of them with the checks as committed.
 
 Changes that the checks *missed* when they were first run, and what was strengthened (all are caught now):
 C01-m1 (open branch through Zarc/Ga/Ha/K with R = inf - generator only used `Resistor(R=inf)`), C01-m2 (builder cache -
@@ -49,7 +51,21 @@ parameter must not matter), C12-m4 and C16-m1 (suffix match without the undersco
 C15-m2 (complex allclose - minor-component inconsistency class), C16-m3 (blank-padded digit label - explicit clause),
 C17-m1 (cnls early stop under unordered delivery - dedicated case on the bundled circuit 4), C18-m1 (progress accounting
 with a list of weights - covering-array top-up of the quick stride and a path bug in our own taxonomy), C20-m4 (stale
-identifier cache - exports repeated after an in-place edit). Two sub-agents also reported defects of the *unchanged* tree
+identifier cache - exports repeated after an in-place edit); second and third round: C07-m4 (time constants in
+reversed order when a contracted tau range meets a narrow grid - grids from one decade, half decades), C02-m3 (value cached
+at the first symbolic export survives a clamping limit - clamping history), C02-m4 (pore length lost in a Tlm helper - L was
+1 in most cases because single-example draws return Hypothesis' simplest example; fourth example taken, L drawn away from
+1), C09-m4 (cnls chi-squared weighted in the wrong representation, hidden behind known finding F38 - chi-squared identity
+checked outside the F38 routing, cnls added to C08), C17-m3 (stage size from num_procs - pool size drawn under FakePool),
+C17-m4 (`seed=0` treated as no seed - boundary seeds), C10-m3 (upper num_RC limit uncapped, 5 % of runs - 160 quick runs,
+noisy end over-sampled, rate oracle), C08-m3 again (max_nfev 20/200 aborted every scalar minimiser before convergence -
+converged and unlimited fits, tnc/cg/slsqp), C05-m6 (`to_dict` hands out the live mask - held exports must stay
+snapshots), C06-m5/m6 (several sweeps in a `.dta` file / `parse --output-to` overwriting sweeps - several sweeps in every
+instrument layout and through the CLI, to files and to stdout), C12-m5 (released default-fixed Warburg exponent not copied
+- drawn), C12-m6 (constraint dictionary consumed by the first in-process fit - constraints that contradict the generating
+values, several methods in the calling process), C13-m6 (forward instead of central quadrature weights - unevenly spaced
+grids), C19-m5 (`--lambda-value` below -1.5 rewritten - all lambda modes), C01-m5 (default sub-circuit shared between
+instances - container isolation part). Two sub-agents also reported defects of the *unchanged* tree
 that the checks had not reached (`!V=1e999!` - defect 25; Z-HIT chi-squared on shifted admittances - defect 16); both
 generators were extended until the checks reproduced them, and both were repaired.
 
